@@ -32,15 +32,14 @@ Plan gen_afail_plan(const std::string &prop, uint64_t seed, int64_t run) {
     Step t;
     switch (r.below(24)) {
         case 0: case 1: case 2: case 3: t = mk("parse", {R(r), R(r), R(r), R(r)}); break;
-        case 4: case 5: case 6: {
+        case 4: case 5: case 6: case 7: {
             // often on a freshly parsed document with nested containers; PrintBuffered (any initial size) twice as often as the others
             if (r.chance(1, 2)) p.steps.push_back(mk("parse", {R(r), R(r), R(r), R(r)}));
             static const int64_t variants[] = {0, 1, 2, 2};
             t = mk("print", {R(r), R(r), variants[r.below(4)], R(r), R(r)});
             break;
         }
-        case 7: t = mk("new_string", {}, {gen_string(r, false, false)}); break;
-        case 8: t = mk(r.chance(1, 2) ? "new_raw" : "new_number", {d2bits(1.5)}, {"[1]"}); break;
+        case 8: if (r.chance(1, 2)) t = mk("new_string", {}, {gen_string(r, false, false)}); else t = mk(r.chance(1, 2) ? "new_raw" : "new_number", {d2bits(1.5)}, {"[1]"}); break;
         case 9: { static const char *c[] = {"new_null", "new_true", "new_false", "new_bool", "new_array", "new_object", "new_strref", "new_arrref", "new_objref"}; t = mk(c[r.below(9)], {R(r), R(r)}); break; }
         case 10: case 11: { static const char *c[] = {"bulk_int", "bulk_float", "bulk_double", "bulk_string"}; t = mk(c[r.below(4)], {(int64_t)r.range(0, 13), R(r)}); break; }
         case 12: case 13: case 14: t = mk("addh", {R(r), R(r), R(r), d2bits(2.25)}, {key, gen_string(r, false, false)}); break;
